@@ -34,6 +34,8 @@ type Options struct {
 	UpdateBaseline bool
 	Seed     int
 	NoReplay bool
+	Keep     bool
+	NilAssumed bool
 }
 
 func main() {
@@ -55,6 +57,7 @@ func main() {
 	flag.BoolVar(&o.UpdateBaseline, "update-baseline", false, "record discharged obligations as the baseline")
 	flag.IntVar(&o.Seed, "seed", 0, "seed (unused by proofs; recorded in evidence)")
 	flag.BoolVar(&o.NoReplay, "noreplay", false, "do not replay counterexamples")
+	flag.BoolVar(&o.Keep, "keep", false, "keep the SMT files of discharged obligations")
 	flag.Parse()
 
 	start := time.Now()
@@ -181,6 +184,9 @@ func solveAll(eng *Engine, o *Options, results []*FuncResult) {
 					}
 				}
 				j.ob.Res = res
+				if res.Status == "unsat" && !o.Keep {
+					_ = os.Remove(file)
+				}
 				switch {
 				case j.ob.Cover:
 					if res.Status == "sat" {
